@@ -23,12 +23,19 @@ Flows (each case goes through the real steps AND the model):
   session     2-4 operations (write->fetch/parser round trip, read of a given source text, fileformat over a list of
               given source texts) in ONE process, and each operation again alone in a FRESH process; the model's
               `runSession` on the same session.
+  ctxsession  steps on ONE Context object: files put on disk / written by filewriteX, then fetchX to the context root
+              (no key, empty key, plain path string) or into a key, several times; model `runC` (op codec.ctxsession).
+  wholectx    filewriteX WITHOUT payload (whole context) with expressions in top-level key names, x 3 formats, read
+              back by fetchX and the Xfile parser; vs the explicit-payload path on the same mapping; model `writePayload`.
 Monitors (judged on the implementation alone, pypyr's own formatter as oracle for "formatted value"):
   a mapping written by filewriteX and read by the Xfile parser - whose arguments spell the path and whose
   encoding (config default; toml utf-8) is the one the file is in - comes back equal to the formatted payload
   (signature flow=parser). A file written in ANOTHER encoding than the parser reads with is not held against the
   parser (it accepts no encoding option): expected per the model, counted `parser:other-encoding`;
   every operation of a session observes what it observes alone in a fresh process;
+  fetch to the root is a top-level update: context[k] == file[k] for every top-level key of the file (whatever the
+  context held there; no node of what was read is formatted), every other key unchanged, the step does not raise;
+  whole-context write == formatted context (keys included) == explicit payload of the same mapping, in all three formats;
   fetched value == formatted payload (typed equality, dict order ignored);
   parse(fileformat output) == formatter applied to parse(source).
 """
@@ -91,6 +98,17 @@ ASSUMPTIONS = [
     'process; every operation must observe what it observes alone in a fresh process, and the per-operation monitors '
     'must hold inside the session). Known failure on the tree as it is: fileFormatYaml shares one round-trip parser '
     'among the files of one `in` list',
+    'steps on ONE context (`runC`, flow ctxsession): the harness calls run_step on one Context object the way '
+    'Step.run_pipeline_steps does (the `in` arguments put into the context before the step, popped after it); decorators, '
+    'foreach/retry loops themselves are not run (the same fetch is repeated instead). The monitor reads the file with the '
+    'plain loader of the format (not pypyr code): "the value in the file" is what that loader returns. Top-level keys '
+    'that are not strings (YAML) are outside the modelled context and not generated for root fetches',
+    'whole-context write (no `payload`): the expected document is pypyr\'s own formatter applied to a deep copy of the '
+    'context as the step sees it (its own input entry included), independently the model\'s `writePayload`; contexts '
+    'with TOML-representable values and string keys only (so that the three formats can be compared); key names that '
+    'format to non-strings are not generated there',
+    'YAML mapping keys whose end falls beyond column 80 (with blanks, < 128 characters) are generated in ONE directed '
+    'family only: on the tree as it is the file written is unreadable (open finding long-key-with-spaces-folded-unreadable)',
     'YAML directives (%YAML 1.1 / 1.2, %TAG), tags and anchors appear in session SOURCE files only; such a file stands in '
     'the model for the document the plain safe loader (a fresh instance) reads from it under its own directive',
 ]
@@ -109,6 +127,10 @@ PLAIN = ['', 'true', 'True', 'false', '1', '-1', '1.5', '1e3', 'null', 'Null', '
          # long text whose only break opportunities are runs of several spaces (line folding of the writers)
          'x' + ' ' * 100 + 'y', 'lead ' + 'w' * 70 + '    ' + 'tail' * 10, ('ab' * 20 + '   ') * 5 + 'end',
          'word ' * 14 + '     five spaces then more ' + 'z' * 30]
+# mapping keys longer than the YAML writer's line width with break opportunities (directed families only: see
+# `cause_of_unreadable`); 128 characters and more are written as explicit keys
+LONG_KEYS = [('word ' * 40)[:79] + 'x', ('word ' * 40)[:80] + 'x', ('word ' * 40)[:99] + 'x', ('lorem ipsum ' * 20)[:119] + 'x', 'é ' + ('word ' * 40)[:97] + 'x']
+LONG_KEYS_FINE = [('word ' * 40)[:59] + 'x', 'k' * 100, ('word ' * 40)[:127] + 'x', ('word ' * 60)[:199] + 'x']
 BRACE = ['{{braces}}', '{{', '}}', 'a{{b}}c', '{{k1}}', '{{}}', 'j{{"a": 1}}']
 EXPR = ['x{k1}', '{k1}', '{k2}', '{k3}', '{k4}', '{k5}', '{k6}', 'n{k2}n', '{k1}{k1}', '{ku}', 'é{ku}', '{kf}',
         '{kb}', 'x{k3}', '{kn}']
@@ -559,10 +581,13 @@ def run_writefetch(drv, case):
                                             for k, v in want_w['d'])
                 got = impl['fetch']['ok']
             rec['monitor'] = {'holds': ok, 'want': want_w, 'got': got}
-    elif impl['write'] == 'ok' and 'err' in impl.get('fetch', {}) and case['variant'] in ('key', 'whole'):
-        # the payload was written, a destination key was given, and the fetch step raised
+    elif impl['write'] == 'ok' and 'err' in impl.get('fetch', {}):
+        # the payload was written and the fetch step raised: with a destination key whatever the top level is; without
+        # one when the formatted payload is a mapping with string keys (that is what can be merged at the root)
         want = I.real_format(ctx, dict(ctx) if case['variant'] == 'whole' else dec(case['payload']), fmt)
-        if 'ok' in want:
+        wv = dec(want['ok']) if 'ok' in want else None
+        if 'ok' in want and (case['variant'] in ('key', 'whole') or
+                             (isinstance(wv, dict) and all(isinstance(k, str) for k in wv))):
             rec['monitor'] = {'holds': False, 'want': I.sort_wire(want['ok']),
                               'got': {'raised': rec.get('impl_detail', {}).get('err'),
                                       'msg': rec.get('impl_detail', {}).get('msg')}, 'via': 'fetch-raised'}
@@ -692,14 +717,14 @@ def run_parser_flow(drv, case):
                 impl['write']['payload'] = {'unreadable': type(e).__name__}
         if hyp is False:
             rec['counts'].append('codec-hypothesis-false:' + fmt)
-            return rec
     rec['model'], rec['impl'] = model, impl
-    if model != impl:
+    if model != impl and hyp is not False:
         rec['mismatch'] = 'write step: observations differ'
     pr = None
     if 'parser' in m:
         pr = I.run_parser_args(fmt, args, dparse)
-        compare_parser(rec, m, pr, raw, text, penc, written)
+        if hyp is not False:
+            compare_parser(rec, m, pr, raw, text, penc, written)
         if I.canonical_encoding(m['parserEnc']) != I.canonical_encoding(penc):
             rec['mismatch'] = (rec.get('mismatch', '') + f"; model: the parser reads with {m['parserEnc']}, documented {penc}").strip('; ')
     # ---- monitor, from the property text: a payload written by the filewrite step and read back with the matching
@@ -751,12 +776,17 @@ def run_fileformat(drv, case):
     I.clean_dir()
     try:
         src_text = I.render(fmt, doc)
-        src_loaded = I.plain(I.load(fmt, src_text))
+        try:
+            src_loaded = I.plain(I.load(fmt, src_text))
+        except Exception:
+            if fmt != 'yaml':
+                raise
+            src_loaded = None           # ruamel's own dump of this source is not readable
     except Exception as e:
         rec['reject'] = f'source cannot be rendered: {type(e).__name__}'
         rec['counts'].append('unrenderable')
         return rec
-    if fmt == 'yaml' and I.sort_wire(enc(src_loaded)) != I.sort_wire(case['doc']):
+    if fmt == 'yaml' and (src_loaded is None or I.sort_wire(enc(src_loaded)) != I.sort_wire(case['doc'])):
         # ruamel's own dump of this source does not read back: write the source as JSON-style flow YAML
         try:
             alt = json.dumps(doc, ensure_ascii=True)
@@ -766,10 +796,10 @@ def run_fileformat(drv, case):
                 rec['counts'].append('yaml-source-as-json-flow')
         except Exception:
             pass
-    if I.sort_wire(enc(src_loaded)) != I.sort_wire(case['doc']):
+    if src_loaded is None or I.sort_wire(enc(src_loaded)) != I.sort_wire(case['doc']):
         # the third-party writer/loader pair does not round-trip this source: the codec hypothesis fails
         rec['counts'].append('codec-hypothesis-false-on-source')
-        rec['hypothesis'] = {'format': fmt, 'doc': case['doc'], 'loaded': enc(src_loaded)}
+        rec['hypothesis'] = {'format': fmt, 'doc': case['doc'], 'loaded': enc(src_loaded) if src_loaded is not None else None}
         return rec
     with I.json_config(jind, jasc):
         o, out_text = I.run_fileformat(fmt, ctx, src_text, case['inplace'], case.get('encoding'), encopts, route)
@@ -1220,7 +1250,451 @@ def run_session(drv, case):
     return rec
 
 
-RUNNERS = {'writefetch': run_writefetch, 'fileformat': run_fileformat, 'jsonprint': run_jsonprint,
+# --------------------------------------------------------------------------
+# steps on ONE context: fetch to the context root is a TOP-LEVEL update (property text: "parsed object stored at key
+# or merged at root"; docs of the steps: "will overwrite existing values if the same keys are already in there")
+# --------------------------------------------------------------------------
+
+NOKEY = '<no key entry>'
+
+
+def cop_put(fmt, path, doc):
+    return {'op': 'put', 'format': fmt, 'path': path, 'doc': enc(_no_none(doc) if fmt == 'toml' else doc)}
+
+
+def cop_write(fmt, path, payload):
+    return {'op': 'write', 'format': fmt, 'input': enc({'path': path, 'payload': _no_none(payload) if fmt == 'toml' else payload})}
+
+
+def cop_fetch(fmt, path, key=NOKEY, as_string=False):
+    if as_string:
+        return {'op': 'fetch', 'format': fmt, 'input': path}
+    inp = {'path': path}
+    if key != NOKEY:
+        inp['key'] = key
+    return {'op': 'fetch', 'format': fmt, 'input': enc(inp)}
+
+
+def ctxsession_case(fmt, ctx0, ops, tag):
+    return {'flow': 'ctxsession', 'format': fmt, 'ctx0': enc(ctx0), 'ops': ops, 'tag': tag}
+
+
+BASE_DOC = {'title': 'settings for {env}', 'servers': ['alpha', 'beta'], 'ports': [8000, 8001],
+            'db': {'host': 'db1.{env}.example', 'port': 5432, 'opts': {'ssl': True, 'pool': 5}},
+            'limits': [{'name': 'cpu', 'max': 2}, {'name': 'mem', 'max': 512}]}
+OVER_DOC = {'title': 'override', 'servers': ['gamma'], 'ports': [9000], 'db': {'host': 'db2.{env}.example'},
+            'limits': [{'name': 'cpu', 'max': 8}]}
+# texts with literal braces - in a FILE they are data (a template text), values and keys alike
+BRACE_DOC = {'template': 'Dear {customer}, your order {{id}} shipped.', 'plain': 'just text', '{x}': 'key with braces',
+             'k{k1}': ['{k1}', '{{', '}}', {'{nested}': '{{k1}}', 'a{{b}}c': 'j{{"a": 1}}'}], 'open': '{', 'close': 'x}y',
+             'fmt': '{k1!r:>10}', 'dotted': '{a.b[0]}'}
+ROOT_KEYS = ['servers', 'db', 'title', 'ports', 'limits', 'k{k1}', '{x}', 'a b', 'tpl', 'k1']
+FILE_STRS = ['plain', 'v', '', '{x}', '{{x}}', '{k1}', 'a{k1}b', '{{', '}}', '{', '}', 'Dear {customer}', '{{k1}}', '{k1}{k1}',
+             'j{"a": 1}', '{0}', '{}', '{a.b}', '{k1!r}', 'true', '1', 'ü→😀']
+WRITE_STRS = ['plain', 'x{k1}', '{k1}', '{{x}}', 'a{{b}}c', '{{', '}}', '{{k1}}', 'Dear {{customer}}', 'ü{k1}']
+
+
+def gen_file_value(rng, fmt, depth=2, strs=FILE_STRS):
+    r = rng.random()
+    if depth <= 0 or r < 0.35:
+        r2 = rng.random()
+        if r2 < 0.6:
+            return rng.choice(strs)
+        if r2 < 0.8:
+            return rng.choice([0, 1, -7, 8000, 2 ** 40])
+        if r2 < 0.9:
+            return rng.choice([0.5, -2.25, 1.0])
+        return rng.random() < 0.5
+    if r < 0.65:
+        n = rng.choice([0, 1, 1, 2, 3])
+        if rng.random() < 0.3:          # list of tables
+            return [{rng.choice(['name', 'max', '{x}', 'k']): gen_file_value(rng, fmt, 0, strs) for _ in range(rng.choice([1, 2]))}
+                    for _ in range(n)]
+        return [gen_file_value(rng, fmt, depth - 1, strs) for _ in range(n)]
+    return {rng.choice(['host', 'port', 'opts', '{x}', 'k{k1}', 'a', 'b']): gen_file_value(rng, fmt, depth - 1, strs)
+            for _ in range(rng.choice([0, 1, 2, 3]))}
+
+
+def gen_root_doc(rng, fmt, strs=FILE_STRS, keys=ROOT_KEYS):
+    return {k: gen_file_value(rng, fmt, 2, strs) for k in rng.sample(keys, rng.choice([1, 2, 3, 4]))}
+
+
+def gen_ctx0(rng):
+    ctx = {'k1': 'v1'}
+    for k in rng.sample(ROOT_KEYS[:-1], rng.choice([0, 1, 2, 3, 4])):
+        r = rng.random()
+        if r < 0.3:
+            ctx[k] = [rng.choice(['old', '{old}', 1, 2.5]) for _ in range(rng.choice([0, 1, 2]))]
+        elif r < 0.55:
+            ctx[k] = {rng.choice(['host', 'port', 'old', '{x}']): rng.choice(['old', 5432, ['o'], {'deep': 'old'}])
+                      for _ in range(rng.choice([0, 1, 2]))}
+        elif r < 0.65:
+            ctx[k] = tuple(rng.choice(['old', 1]) for _ in range(rng.choice([0, 1, 2])))
+        elif r < 0.75:
+            ctx[k] = set(rng.sample(['old', 'older', 1, 2], rng.choice([0, 1, 2])))
+        else:
+            ctx[k] = rng.choice(['old text', '{untouched}', 0, None, True])
+    return ctx
+
+
+def directed_ctxsessions():
+    out = []
+    for fmt in ('json', 'yaml', 'toml'):
+        f1, f2 = f'cfg/base.{fmt}', f'cfg/override.{fmt}'
+        # layered settings: base to the root, then override to the root; the same again into keys as the reference
+        out.append(ctxsession_case(fmt, {'env': 'prod'}, [
+            cop_put(fmt, f1, BASE_DOC), cop_fetch(fmt, f1), cop_put(fmt, f2, OVER_DOC), cop_fetch(fmt, f2, as_string=True),
+            cop_fetch(fmt, f1, 'refBase'), cop_fetch(fmt, f2, 'refOverride')], 'layered-base-override'))
+        # the same file re-fetched after it changed on disk (shorter list, a table that lost keys, a type change)
+        out.append(ctxsession_case(fmt, {'k1': 'v1'}, [
+            cop_put(fmt, f1, BASE_DOC), cop_fetch(fmt, f1),
+            cop_put(fmt, f1, {'servers': ['only'], 'db': {'port': 1}, 'limits': 'none now', 'ports': {'was': 'a list'}}),
+            cop_fetch(fmt, f1), cop_fetch(fmt, f1), cop_fetch(fmt, f1, '')], 'refetch-changed-file'))
+        # the context already holds containers / scalars under the names the file brings
+        pre = {'servers': ['old-1', 'old-2'], 'db': {'host': 'old', 'legacy': True, 'opts': {'ssl': False, 'x': 1}},
+               'ports': (1, 2), 'limits': {'a', 'b'}, 'title': ['was', 'a', 'list'], 'other': {'keep': ['me']}, 'k1': 'v1'}
+        out.append(ctxsession_case(fmt, pre, [cop_put(fmt, f1, BASE_DOC), cop_fetch(fmt, f1)], 'context-holds-containers'))
+        out.append(ctxsession_case(fmt, pre, [cop_put(fmt, f2, OVER_DOC), cop_fetch(fmt, f2, ''),
+                                              cop_put(fmt, f1, BASE_DOC), cop_fetch(fmt, f1)], 'context-holds-containers-2'))
+        out.append(ctxsession_case(fmt, {'servers': [], 'db': {}, 'title': '', 'ports': None, 'limits': 0},
+                                   [cop_put(fmt, f1, BASE_DOC), cop_fetch(fmt, f1)], 'context-holds-falsy'))
+        # literal braces in the file: values and keys, to the root and into a key; with and without k1 in the context
+        for ctx0 in ({'k1': 'v1'}, {}, {'x': 'X', 'customer': 'C', 'k1': 'v1', 'template': ['old'], '{x}': {'old': 1}}):
+            out.append(ctxsession_case(fmt, ctx0, [cop_put(fmt, f1, BRACE_DOC), cop_fetch(fmt, f1)], 'braces-to-root'))
+            out.append(ctxsession_case(fmt, ctx0, [cop_put(fmt, f1, BRACE_DOC), cop_fetch(fmt, f1, 'dest'),
+                                                   cop_fetch(fmt, f1, as_string=True)], 'braces-to-key-then-root'))
+        for s in FILE_STRS:
+            out.append(ctxsession_case(fmt, {'k1': 'v1', 'v': 'old'}, [cop_put(fmt, f1, {'v': s, 'l': [s], s or 'e': {'n': s}}),
+                                                                      cop_fetch(fmt, f1)], 'brace-string-to-root'))
+        # written by the write step ({{x}} in the payload is {x} in the file), then to the root - twice
+        wp = {'tpl': 'Dear {{customer}}, {k1}', 'list': ['{{x}}', 'a{{b}}c', '{{k1}}'], 'tbl': {'{{key}}': '{{', 'n': 1}}
+        out.append(ctxsession_case(fmt, {'k1': 'v1', 'list': ['old'], 'tbl': {'old': 1}}, [
+            cop_write(fmt, f1, wp), cop_fetch(fmt, f1), cop_write(fmt, f1, {'list': ['new'], 'tbl': {'n': 2}}),
+            cop_fetch(fmt, f1), cop_fetch(fmt, f1, 'copy')], 'write-step-then-root-twice'))
+        # a loop: the same fetch three times
+        out.append(ctxsession_case(fmt, {'k1': 'v1'}, [cop_put(fmt, f1, OVER_DOC)] + [cop_fetch(fmt, f1)] * 3, 'same-fetch-3x'))
+    # the three formats onto one context
+    out.append(ctxsession_case('toml', {'env': 'prod', 'servers': ['ctx']}, [
+        cop_put('json', 'a.json', BASE_DOC), cop_fetch('json', 'a.json'), cop_put('yaml', 'b.yaml', OVER_DOC),
+        cop_fetch('yaml', 'b.yaml'), cop_put('toml', 'c.toml', {'servers': ['t1', 't2'], 'db': {'port': 1}, 'tpl': '{env}'}),
+        cop_fetch('toml', 'c.toml')], 'three-formats-one-context'))
+    return out
+
+
+def random_ctxsession(rng):
+    fmt = rng.choice(['json', 'yaml', 'toml', 'toml'])
+    ops, files, have = [], [], set()
+    for i in range(rng.choice([1, 2, 2, 3, 4])):
+        f = rng.choice(['json', 'yaml', 'toml']) if rng.random() < 0.15 else fmt
+        if files and rng.random() < 0.35:
+            path, f = rng.choice(files)            # the same file again: changed on disk, or fetched as it is
+        else:
+            path = f'd{i}/f{i}.{f}'
+            files.append((path, f))
+        r = rng.random()
+        if r < 0.6 or (path not in have and r >= 0.85):
+            ops.append(cop_put(f, path, gen_root_doc(rng, f)))
+        elif r < 0.85:
+            ops.append(cop_write(f, path, gen_root_doc(rng, f, WRITE_STRS, ROOT_KEYS[:-1])))
+        have.add(path)
+        r = rng.random()
+        ops.append(cop_fetch(f, path) if r < 0.6 else cop_fetch(f, path, as_string=True) if r < 0.7 else
+                   cop_fetch(f, path, '') if r < 0.8 else cop_fetch(f, path, rng.choice(['dest', 'servers', 'db'])))
+    return ctxsession_case(fmt, gen_ctx0(rng), ops, 'random')
+
+
+def has_brace_str(w):
+    if isinstance(w, str):
+        return '{' in w or '}' in w
+    if isinstance(w, list):
+        return any(has_brace_str(x) for x in w)
+    if isinstance(w, dict) and 'd' in w:
+        return any(has_brace_str(k) or has_brace_str(v) for k, v in w['d'])
+    return False
+
+
+def _wd(w):
+    """canonical wire dict -> {canon(key): (key, value)}"""
+    return {canon(k): (k, v) for k, v in w['d']}
+
+
+def judge_fetch(op, rec):
+    """Monitor from the property text, on the implementation alone: what the plain loader of the format reads from the
+    file is D. With a destination key: context[key] == D afterwards and every other key is as it was. Without one
+    (or with a falsy one) and D a mapping: context[k] == D[k] for EVERY top-level k of D - whatever the context held
+    there, no node of D changed (nothing read is formatted) - and every other key is as it was; the step does not
+    raise. Returns None or {'what', 'key', 'want', 'got'}."""
+    if 'ok' not in rec.get('file', {}) or 'before' not in rec:
+        return None
+    D = I.sort_wire(rec['file']['ok'])
+    inp = dec(op['input'])
+    key = None if isinstance(inp, str) else inp.get('key')
+    before = _wd(rec['before'])
+    if key:
+        if not isinstance(key, str):
+            return None
+        expect = dict(before)
+        expect[canon(key)] = (key, D)
+        written = {canon(key)}
+    else:
+        if not (isinstance(D, dict) and 'd' in D) or any(not isinstance(k, str) for k, _ in D['d']):
+            return None
+        expect = dict(before)
+        written = set()
+        for k, v in D['d']:
+            expect[canon(k)] = (k, v)
+            written.add(canon(k))
+    expect.pop(canon(I.FETCH[op['format']][1]), None)
+    if 'err' in rec:
+        return {'what': 'raised', 'key': None, 'want': 'the step returns', 'got': {'raised': rec['err'], 'msg': rec.get('msg')}}
+    if not isinstance(rec.get('after'), dict) or 'd' not in rec['after']:
+        return {'what': 'context-unreadable', 'key': None, 'want': None, 'got': rec.get('after')}
+    after = _wd(rec['after'])
+    for ck, (k, v) in expect.items():
+        if ck not in after:
+            return {'what': 'key-of-the-file-missing' if ck in written else 'other-key-removed', 'key': k, 'want': v, 'got': None}
+        if after[ck][1] != v:
+            return {'what': 'value-differs-from-the-file' if ck in written else 'other-key-changed', 'key': k, 'want': v,
+                    'got': after[ck][1]}
+    for ck, (k, v) in after.items():
+        if ck not in expect:
+            return {'what': 'key-added', 'key': k, 'want': None, 'got': v}
+    return None
+
+
+def run_ctxsession(drv, case):
+    ops = case['ops']
+    ctx0 = dec(case['ctx0'])
+    rec = {'case': case, 'counts': ['flow:ctxsession', 'ctxsession:' + case.get('tag', ''), 'ctxsession-fmt:' + case['format']],
+           'violations': []}
+    I.clean_dir()
+    obs = I.run_ctx_session(ctx0, ops)
+    if any('put' in o and o['put'] != 'ok' for o in obs):
+        rec['reject'] = 'a source file cannot be rendered'
+        rec['counts'].append('unrenderable')
+        return rec
+    roots = 0
+    for i, (op, o) in enumerate(zip(ops, obs)):
+        if op['op'] == 'fetch':
+            inp = dec(op['input'])
+            to_root = isinstance(inp, str) or not inp.get('key')
+            rec['counts'].append('cfetch:' + ('root' if to_root else 'key'))
+            if to_root:
+                roots += 1
+                if roots > 1:
+                    rec['counts'].append('cfetch:root-again')
+                D = o.get('file', {}).get('ok')
+                if isinstance(D, dict) and 'd' in D:
+                    b = _wd(o['before'])
+                    if any(canon(k) in b and kind_of(b[canon(k)][1]) in ('list', 'dict', 'obj') for k, _ in D['d']):
+                        rec['counts'].append('cfetch:root-over-container')
+                    if has_brace_str(D):
+                        rec['counts'].append('cfetch:file-has-braces')
+            bad = judge_fetch(op, o)
+            if bad:
+                where = 'the context root' if to_root else f"key {inp.get('key')!r}"
+                rec['violations'].append({
+                    'detail': (f"ctxsession {op['format']}: step {i} fetch{op['format']} of {inp if isinstance(inp, str) else inp.get('path')!r} "
+                               f"into {where}: {bad['what']}" + (f" at context[{bad['key']!r}]" if bad['key'] is not None else '') +
+                               (f": the step raised {bad['got'].get('raised')}: {bad['got'].get('msg')}; the file holds {json.dumps(o['file']['ok'])[:200]}"
+                                if bad['what'] == 'raised' else
+                                f": the file holds {json.dumps(bad['want'])[:200]}, the context holds {json.dumps(bad['got'])[:200]}") +
+                               f" (context before the step: {json.dumps(o['before'])[:200]})"),
+                    'signature': {'flow': 'ctxsession', 'format': op['format'],
+                                  'cause': ('fetch-to-root-is-not-a-top-level-update' if to_root else 'fetch-to-key-does-not-store-the-file'),
+                                  'what': bad['what']},
+                    'impl': {'step': i, 'problem': bad, 'file': o.get('file')}})
+                break
+        elif op['op'] == 'write':
+            rec['counts'].append('cwrite')
+            want = o.get('want', {})
+            if 'ok' in want and 'err' not in o and I.third_party_roundtrip(op['format'], dec(want['ok'])) is not False:
+                w, got = I.sort_wire(want['ok']), o.get('file', {})
+                if I.sort_wire(got.get('ok')) != w:
+                    rec['violations'].append({
+                        'detail': f"ctxsession {op['format']}: step {i} filewrite{op['format']}: the file holds {json.dumps(got)[:200]}, "
+                                  f"the formatted payload is {json.dumps(w)[:200]}",
+                        'signature': {'flow': 'ctxsession', 'format': op['format'], 'cause': 'file-written-differs-from-formatted-payload'},
+                        'impl': {'step': i, 'file': got, 'want': w}})
+                    break
+    # ---- the model's runC on the same steps (files = what the plain loader reads from the files put on disk)
+    try:
+        mops = []
+        for op in ops:
+            if op['op'] == 'put':
+                doc = enc(I.plain(I.load(op['format'], I.render(op['format'], dec(op['doc'])))))
+                mops.append({'op': 'put', 'path': op['path'], 'doc': doc})
+            else:
+                mops.append({'op': op['op'], 'format': op['format'], 'input': op['input']})
+        m = drv.ask('codec.ctxsession', ctx=case['ctx0'], ops=mops)
+        mv, iv = [], []
+        for mo in m['obs']:
+            mv.append({'ok': I.sort_wire(mo['ok'])} if 'ok' in mo else {'err': err_class(mo['err']['name'], exact=True)})
+        for o in obs:
+            if 'put' in o:
+                iv.append(None)
+            elif 'err' in o:
+                iv.append({'err': err_class(o['err'], exact=True)})
+            else:
+                iv.append({'ok': o['after']})
+        # the model reports the (unchanged) context after a put as well
+        mv = [None if x is None else y for x, y in zip(iv, mv)] + mv[len(iv):]
+        rec['model'], rec['impl'] = {'steps': mv}, {'steps': iv}
+        hyp_ok = all(not (op['op'] == 'write' and 'ok' in o.get('want', {}) and
+                          I.third_party_roundtrip(op['format'], dec(o['want']['ok'])) is False) for op, o in zip(ops, obs))
+        if mv != iv and hyp_ok:
+            rec['mismatch'] = 'context after the steps differs from runC'
+        rec['counts'].append('ctxsession-modelled')
+    except common.Reject as e:
+        rec['counts'].append('ctxsession-model-rejected')
+        rec['session_reject'] = str(e)
+    return rec
+
+
+# --------------------------------------------------------------------------
+# the write steps WITHOUT payload: the whole context is written, "every string node, keys included" formatted
+# --------------------------------------------------------------------------
+
+WHOLE_BASE = {'env': 'prod', 'region': 'eu', 'service': 'billing', 'k1': 'v1'}
+WHOLE_KEYS = ['{env}_url', '{service}-{region}', 'k{k1}', '{{literal}}', 'a{{b}}', '{env}{region}', 'plain', 'answer', 'x{env}x',
+              '{env}', 'ü{k1}', '{service} url', 'nested']
+WHOLE_STRS = ['https://{service}.{env}.example', 'no expressions here', '{env}', '{{env}}', 'x{k1}', '', 'true', '{region}-{region}',
+              'ü→{env}']
+
+
+def gen_whole_value(rng, depth=2):
+    r = rng.random()
+    if depth <= 0 or r < 0.5:
+        r2 = rng.random()
+        return rng.choice(WHOLE_STRS) if r2 < 0.7 else rng.choice([42, 0, -1, 3, 1.5, True, False])
+    if r < 0.75:
+        return [gen_whole_value(rng, depth - 1) for _ in range(rng.choice([0, 1, 2, 3]))]
+    return {k: gen_whole_value(rng, depth - 1) for k in rng.sample(WHOLE_KEYS, rng.choice([0, 1, 2, 3]))}
+
+
+def wholectx_case(ctx, tag):
+    return {'flow': 'wholectx', 'format': 'all', 'ctx': enc(ctx), 'tag': tag}
+
+
+def directed_wholectx():
+    out = []
+    settings = dict(WHOLE_BASE, **{'{env}_url': 'https://{service}.{env}.example',
+                                   '{service}-{region}': {'replicas': 3, '{env}_only': True,
+                                                          'hosts': ['{service}-1.{region}', '{service}-2.{region}']},
+                                   'plain': 'no expressions here', 'answer': 42})
+    out.append(wholectx_case(settings, 'templated-settings'))
+    for k in WHOLE_KEYS:
+        out.append(wholectx_case(dict(WHOLE_BASE, **{k: 'value {env}', 'n': {k: [k, {k: 1}]}}), 'one-key'))
+    out.append(wholectx_case(dict(WHOLE_BASE), 'plain-keys-only'))
+    out.append(wholectx_case(dict(WHOLE_BASE, **{'{env}_url': 'first', 'prod_url': 'second'}), 'keys-collide-after-formatting'))
+    out.append(wholectx_case(dict(WHOLE_BASE, **{'prod_url': 'first', '{env}_url': 'second', 'z': 1}), 'keys-collide-after-formatting'))
+    out.append(wholectx_case({'env': 'prod', '{env}': '{env}'}, 'key-is-one-expression'))
+    return out
+
+
+def random_wholectx(rng):
+    ctx = dict(WHOLE_BASE)
+    for k in rng.sample(WHOLE_KEYS, rng.choice([1, 2, 3, 4, 5])):
+        ctx[k] = gen_whole_value(rng)
+    return wholectx_case(ctx, 'random')
+
+
+def run_wholectx(drv, case):
+    import copy
+    ctx = dec(case['ctx'])
+    rec = {'case': case, 'counts': ['flow:wholectx', 'wholectx:' + case.get('tag', '')], 'violations': []}
+    if any('{' in k for k in ctx):
+        rec['counts'].append('wholectx:top-level-key-with-expression')
+    stripped = {}
+    model, impl = {}, {}
+    for fmt in ('json', 'yaml', 'toml'):
+        wkey, fkey = I.WRITE[fmt][1], I.FETCH[fmt][1]
+        path = 'out/whole.' + fmt
+        ctx_w = copy.deepcopy(ctx)
+        ctx_w[wkey] = {'path': path}
+        # (a) the oracle: pypyr's formatter on a deep copy of the context as the step sees it (own input included)
+        want = I.real_format(copy.deepcopy(ctx_w), copy.deepcopy(ctx_w), fmt)
+        if 'ok' not in want:
+            rec['counts'].append('wholectx:unformattable')
+            continue
+        if I.third_party_roundtrip(fmt, dec(want['ok'])) is not True:
+            rec['counts'].append('wholectx:codec-hypothesis-false:' + fmt)
+            continue
+        want_w = I.sort_wire(want['ok'])
+        I.clean_dir()
+        w = I.run_write_cfg(fmt, copy.deepcopy(ctx), {'path': path})
+        if 'err' in w:
+            rec['violations'].append(_whole_v(fmt, 'whole-context-write-raised', f"the step raised {w['err']}: {w.get('msg')}", want_w, w))
+            continue
+        r = I.run_fetch_cfg(fmt, {}, {'path': path, 'key': 'out'})
+        back = _at_out(r)
+        impl[fmt] = back
+        rec['counts'].append('wholectx-run:' + fmt)
+        if back != want_w:
+            what, a, b = ('read-raised', want_w, back) if isinstance(back, dict) and 'raised' in back else first_diff(want_w, back)
+            rec['violations'].append(_whole_v(
+                fmt, 'whole-context-write-differs-from-formatted-context',
+                f"read back by fetch{fmt} it differs from the formatted context at a {what} node: wanted {json.dumps(a)[:160]}, got {json.dumps(b)[:160]}",
+                want_w, back, what))
+        pr = I.run_parser_args(fmt, [path])
+        pgot = I.sort_wire(pr['ok']) if 'ok' in pr else {'raised': pr.get('err', 'returned None')}
+        if pgot != want_w and back == want_w:
+            rec['violations'].append(_whole_v(fmt, 'whole-context-write-differs-from-formatted-context',
+                                              f"read back by the {fmt}file parser it differs from the formatted context: {json.dumps(pgot)[:200]}",
+                                              want_w, pgot, 'parser'))
+        # (b) the same mapping handed to the step as an explicit payload
+        p2 = 'out/explicit.' + fmt
+        w2 = I.run_write_cfg(fmt, copy.deepcopy(ctx), {'path': p2, 'payload': copy.deepcopy(ctx_w)})
+        back2 = _at_out(I.run_fetch_cfg(fmt, {}, {'path': p2, 'key': 'out'})) if 'err' not in w2 else {'raised': w2['err']}
+        if back2 != back:
+            what, a, b = first_diff(back2, back) if isinstance(back, dict) and isinstance(back2, dict) and 'd' in back and 'd' in back2 \
+                else ('kind', back2, back)
+            rec['violations'].append(_whole_v(
+                fmt, 'whole-context-write-differs-from-explicit-payload-of-the-same-mapping',
+                f"without payload the file reads back as {json.dumps(b)[:160]} where the same mapping given as payload reads back as {json.dumps(a)[:160]} ({what} node)",
+                back2, back, what))
+        if isinstance(back, dict) and 'd' in back:
+            stripped[fmt] = {'d': [[k, v] for k, v in back['d'] if k != wkey]}
+        # the model: `writePayload` without payload, then the fetch step (file level, ideal codec)
+        try:
+            m = drv.ask('codec.writefetch', format=fmt, ctx=enc(ctx_w), ctx2=enc({fkey: {'path': path, 'key': 'out'}}))
+            if 'ok' in m.get('write', {}) and 'ok' in m.get('fetch', {}):
+                got = dict((json.dumps(k), v) for k, v in m['fetch']['ok']['d']).get('"out"', {'missing': True})
+                model[fmt] = I.sort_wire(got)
+            else:
+                model[fmt] = {'err': m}
+        except common.Reject:
+            rec['counts'].append('wholectx-model-rejected')
+            impl.pop(fmt, None)
+    # (c) the three write steps agree (own input entry aside)
+    fmts = sorted(stripped)
+    for a in fmts[1:]:
+        if stripped[a] != stripped[fmts[0]] and not rec['violations']:
+            what, x, y = first_diff(stripped[fmts[0]], stripped[a])
+            rec['violations'].append(_whole_v(a, 'write-steps-disagree-on-whole-context',
+                                              f"filewrite{a} and filewrite{fmts[0]} wrote different documents for the same context ({what} node: {json.dumps(x)[:120]} vs {json.dumps(y)[:120]})",
+                                              stripped[fmts[0]], stripped[a], what))
+    rec['model'], rec['impl'] = model, impl
+    if model != impl:
+        rec['mismatch'] = 'whole-context write: what is read back differs from the model'
+    return rec
+
+
+def _at_out(r):
+    if 'ok' not in r:
+        return {'raised': r.get('err'), 'msg': r.get('msg')}
+    return I.sort_wire(dict((json.dumps(k), v) for k, v in r['ok']['d']).get('"out"', {'missing': True}))
+
+
+def _whole_v(fmt, cause, text, want, got, what=None):
+    sig = {'flow': 'wholectx', 'format': fmt, 'cause': cause}
+    if what:
+        sig['what'] = what
+    return {'detail': f'wholectx {fmt}: filewrite{fmt} without payload (the whole context is written): {text}', 'signature': sig,
+            'impl': {'want': want, 'got': got}}
+
+
+RUNNERS = {'ctxsession': run_ctxsession, 'wholectx': run_wholectx, 'writefetch': run_writefetch, 'fileformat': run_fileformat, 'jsonprint': run_jsonprint,
            'jsonparse': run_jsonparse, 'session': run_session, 'parser': run_parser_flow}
 
 
@@ -1448,6 +1922,26 @@ def first_diff(want, got):
     return kind_of(want), want, got
 
 
+def has_long_fold_key(w):
+    """A wire value with a mapping key that is a string of 61..127 characters containing a blank and no line break
+    (what ruamel's round-trip dumper writes as a plain implicit key and folds where it crosses column 80: from 81
+    characters at the top level, from correspondingly fewer under indentation)."""
+    if isinstance(w, list):
+        return any(has_long_fold_key(x) for x in w)
+    if isinstance(w, dict) and 'd' in w:
+        return any((isinstance(k, str) and 60 < len(k) < 128 and ' ' in k and '\n' not in k) or has_long_fold_key(v)
+                   for k, v in w['d'])
+    return False
+
+
+def cause_of_unreadable(fmt, want, default):
+    """The file written cannot be read back at all (the loader raises). YAML with a long blank-separated key in the
+    document: its own signature - the output is unreadable, not a changed value."""
+    if fmt == 'yaml' and has_long_fold_key(want):
+        return 'long-key-with-spaces-folded-unreadable'
+    return default
+
+
 def cause_of(what, a):
     if isinstance(a, str):
         sp = sorted({name for ch, name in SPECIAL.items() if ch in a and name not in ('TAB', 'LF')})
@@ -1506,17 +2000,22 @@ def absorb(res, rec):
                       f" at a {what} node: wanted {json.dumps(a)[:160]}, got {json.dumps(b)[:160]}")
             sig = {'flow': 'session', 'format': pr['format'], 'cause': cause, 'op': pr['kind']}
         res.violation(case, detail, signature=sig, impl={'problem': pr})
+    for v in (rec.get('violations') or [])[:3]:
+        res.violation(case, v['detail'], signature=v['signature'], impl=v.get('impl'))
     mon = rec.get('monitor')
     if mon is not None and not mon['holds']:
         flow = 'parser' if mon.get('via') in ('parser', 'parser-raised') else case['flow']
         if mon.get('via') == 'fetch-raised':
             top = kind_of(mon['want'])
-            cause = 'fetch-raised-on-top-level-' + top
+            cause = cause_of_unreadable(case['format'], mon['want'], 'fetch-raised-on-top-level-' + top)
             detail = (f"writefetch {case['format']}: the payload was written but the fetch step raised "
-                      f"{mon['got'].get('raised')}: {mon['got'].get('msg')} (top-level {top}, destination key given)")
+                      f"{mon['got'].get('raised')}: {mon['got'].get('msg')} (top-level {top}, " +
+                      ('destination key given)' if case.get('variant') in ('key', 'whole') else
+                       'no destination key: a string-keyed mapping to be merged at the context root)'))
             a = mon['want']
         elif mon.get('via') == 'parser-raised':
-            cause = 'parser-raised-although-the-file-is-in-the-encoding-it-reads-with:' + str(mon['got'].get('raised'))
+            cause = cause_of_unreadable(case['format'], mon['want'],
+                                        'parser-raised-although-the-file-is-in-the-encoding-it-reads-with:' + str(mon['got'].get('raised')))
             detail = (f"parser {case['format']}: the payload was written by the filewrite step (encoding entry "
                       f"{case.get('wenc')!r}, config.default_encoding {case.get('dflt')!r}) and the file context parser, "
                       f"called with args {parser_args(case)!r} under config.default_encoding "
@@ -1528,7 +2027,7 @@ def absorb(res, rec):
                 what, a, b = 'unreadable', mon['want'], mon['got']
             else:
                 what, a, b = first_diff(mon['want'], mon['got'])
-            cause = cause_of(what, a)
+            cause = cause_of_unreadable(case['format'], mon['want'], 'unreadable') if what == 'unreadable' else cause_of(what, a)
             detail = (f"{flow} {case['format']}: " +
                       ('value read back differs from the formatted payload' if flow in ('writefetch', 'parser')
                        else 'output document differs from the source with every string node formatted') +
@@ -1652,9 +2151,25 @@ def build_cases(env):
         for p in directed_payloads(fmt)[-8:]:
             if isinstance(p, dict):
                 cases.append(parser_case(fmt, p, ABSENT, 'utf-16', SAME, 'split'))
+    # ---- long mapping keys (longer than the YAML writer's line width; with / without blanks), all three formats and flows.
+    #      DIRECTED ONLY: on the tree as it is the yaml ones with blanks in 81..127 are unreadable after the write
+    for fmt in ('json', 'yaml', 'toml'):
+        for k in LONG_KEYS + LONG_KEYS_FINE:
+            for p in ({k: 'v', 'other': 1}, {'n': {k: [k, {'deep': 'x{k1}'}]}}):
+                cases.append(writefetch_case(fmt, p, 'key'))
+                cases.append(parser_case(fmt, p))
+                cases.append(fileformat_case(fmt, p, inplace=True))
+    # ---- steps on one context: fetch to the context root (twice, over containers, files with literal braces)
+    cases += directed_ctxsessions()
+    # ---- the write steps without payload: whole context, top-level key names with expressions
+    cases += directed_wholectx()
     # ---- sessions
     cases += directed_sessions()
     n_directed = len(cases)
+    for _ in range(env.n(120, 6000)):
+        cases.append(random_ctxsession(rng))
+    for _ in range(env.n(40, 2500)):
+        cases.append(random_wholectx(rng))
     for i in range(env.n(90, 4000)):
         fmt = ('json', 'yaml', 'toml')[i % 3]
         p = gen_doc(rng, fmt, rng.choice([1, 2, 2, 3]), top=True)
@@ -1725,8 +2240,19 @@ def run(env, res):
                 'parser / fileformatyaml (alone, first or last of an `in` list, in place / to an out dir), followed by write->'
                 'fetch and write->parser round trips of YAML-1.1 look-alike strings (yes/no/on/off/y/n, 12:30:00, 0777, ...) '
                 'as values and keys; 1.1/1.2 interleavings; json and toml sessions; formats interleaved; random sessions of '
-                '2-4 operations. Every operation is also run alone in a fresh process. non-trivial = every case (distinct '
-                'canonical input)')
+                '2-4 operations. Every operation is also run alone in a fresh process. Steps on ONE context (ctxsession): '
+                'files placed on disk by the plain writer of the format (strings and KEYS with literal braces {x} {{ }} {k1!r} are '
+                'data there) or written by the write step, then fetch{json,yaml,toml} to the context root / with an empty key / '
+                'as a plain path string / into a key - layered base+override files, a file re-fetched after it changed, the same '
+                'fetch 3x, a context that already holds lists / tables / tuples / sets / falsy values under the names the file '
+                'brings, the three formats onto one context; random: 1-4 files x random pre-filled contexts. Monitor: after the '
+                'step context[k] == file[k] (typed, node for node) for every top-level k of the file, every other key as before, '
+                'no raise; model: runC. Whole context (wholectx): filewrite{json,yaml,toml} WITHOUT payload on contexts whose '
+                'top-level key names carry expressions ({env}_url, {service}-{region}, k{k1}, {{literal}}, colliding after '
+                'formatting), read back by the fetch step and the file parser == the formatted context (own input entry '
+                'included), == the same mapping given as explicit payload, and the same document from the three write steps. '
+                'Long keys (81..127 / 80 / 128+ characters, with and without blanks) x 3 formats x write->fetch / parser / '
+                'fileformat, directed only. non-trivial = every case (distinct canonical input)')
     cases, n_directed = build_cases(env)
     res.extra['directed_cases'] = n_directed
     recs = run_all(env, cases, env.n(6, 14))
